@@ -1,13 +1,21 @@
-"""Run the registered checks against every kept seeded change: apply /verif/seeded/<name>/patch.diff to /repo, run the quick (or
-thorough) command of the property it breaks, undo (git checkout -- .).  Prints one line per seed and writes seeded/RESULTS.md.
-usage: .venv/bin/python tools_seeded.py [quick|thorough] [name ...]
+"""Run the registered checks against every kept seeded change.
+
+Each seed (/verif/seeded/<name>/patch.diff) is applied to a scratch git worktree of /repo's HEAD under /tmp (never to /repo itself
+while other checks may be reading it), the quick (or thorough) command of the property it breaks is run with RPYLIB_REPO pointing
+at that worktree and VERIF_OUT at a scratch directory (so /verif/evidence is not overwritten by a run on modified code), and the
+worktree is removed.  `--in-repo` does the same with `git -C /repo apply` / `git -C /repo checkout -- .` instead.
+Prints one line per seed and writes seeded/RESULTS_<tier>.md.
+usage: .venv/bin/python tools_seeded.py [quick|thorough] [--in-repo] [-j N] [name ...]
 """
 import glob
 import json
 import os
+import shutil
 import subprocess
 import sys
+import tempfile
 import time
+from concurrent.futures import ThreadPoolExecutor
 
 HERE = os.path.dirname(os.path.abspath(__file__))
 REPO = "/repo"
@@ -17,42 +25,78 @@ def run(cmd, **kw):
     return subprocess.run(cmd, shell=True, capture_output=True, text=True, **kw)
 
 
+def one(d, tier, in_repo):
+    name = os.path.basename(d)
+    meta = json.load(open(os.path.join(d, "meta.json")))
+    patch = os.path.join(d, "patch.diff")
+    scratch = tempfile.mkdtemp(prefix=f"seed_{name}_", dir="/tmp")
+    wt = REPO if in_repo else os.path.join(scratch, "wt")
+    try:
+        if not in_repo:
+            r = run(f"git -C {REPO} worktree add --detach {wt} HEAD")
+            assert r.returncode == 0, r.stderr
+        r = run(f"git -C {wt} apply {patch}")
+        if r.returncode != 0:
+            return (name, meta["property"], "patch does not apply", r.stderr.strip()[:80], 0)
+        props = meta.get("checks", [meta["property"]])
+        verdicts = []
+        t0 = time.time()
+        env = dict(os.environ, RPYLIB_REPO=wt, VERIF_OUT=os.path.join(scratch, "out"))
+        for p in props:
+            rr = run(f"./vcheck {p} {tier}", cwd=HERE, timeout=4 * 3600, env=env)
+            viol = [l for l in rr.stdout.splitlines() if l.startswith("VIOLATION")]
+            ids = []
+            for l in viol:
+                f = l.split("replay=")[1].strip()
+                try:
+                    ids.append(json.load(open(f)).get("obligation", os.path.basename(f)))
+                except Exception:
+                    ids.append(os.path.basename(f))
+            verdicts.append(f"{p}: exit {rr.returncode}, {len(viol)} VIOLATION line(s)" + (f" [{', '.join(sorted(set(ids)))[:160]}]" if ids else ""))
+        caught = any("exit 1" in v for v in verdicts)
+        return (name, meta["property"], "CAUGHT" if caught else "missed", "; ".join(verdicts), round(time.time() - t0, 1))
+    finally:
+        if in_repo:
+            run(f"git -C {REPO} checkout -- .")
+        else:
+            run(f"git -C {REPO} worktree remove --force {wt}")
+        shutil.rmtree(scratch, ignore_errors=True)
+
+
 def main():
-    tier = "quick"
-    names = []
-    for a in sys.argv[1:]:
+    tier, names, in_repo, jobs = "quick", [], False, 2
+    args = sys.argv[1:]
+    while args:
+        a = args.pop(0)
         if a in ("quick", "thorough"):
             tier = a
+        elif a == "--in-repo":
+            in_repo, jobs = True, 1
+        elif a == "-j":
+            jobs = int(args.pop(0))
         else:
             names.append(a)
-    assert run(f"git -C {REPO} status --porcelain").stdout.strip() == "", "/repo has uncommitted changes"
+    if in_repo:
+        assert run(f"git -C {REPO} status --porcelain").stdout.strip() == "", "/repo has uncommitted changes"
+        jobs = 1
+    dirs = [d for d in sorted(glob.glob(os.path.join(HERE, "seeded", "*"))) if os.path.isdir(d) and (not names or os.path.basename(d) in names)]
     rows = []
-    for d in sorted(glob.glob(os.path.join(HERE, "seeded", "*"))):
-        if not os.path.isdir(d) or (names and os.path.basename(d) not in names):
-            continue
-        meta = json.load(open(os.path.join(d, "meta.json")))
-        patch = os.path.join(d, "patch.diff")
-        r = run(f"git -C {REPO} apply {patch}")
-        if r.returncode != 0:
-            rows.append((os.path.basename(d), meta["property"], "patch does not apply", "", 0))
-            continue
-        try:
-            props = meta.get("checks", [meta["property"]])
-            verdicts = []
-            t0 = time.time()
-            for p in props:
-                rr = run(f"./vcheck {p} {tier}", cwd=HERE, timeout=3600)
-                viol = [l for l in rr.stdout.splitlines() if l.startswith("VIOLATION")]
-                verdicts.append(f"{p}: exit {rr.returncode}, {len(viol)} VIOLATION line(s)" + (f" [{viol[0].split('replay=')[1].split('/')[-1][:60]}]" if viol else ""))
-            caught = any("exit 1" in v for v in verdicts)
-            rows.append((os.path.basename(d), meta["property"], "CAUGHT" if caught else "missed", "; ".join(verdicts), round(time.time() - t0, 1)))
-        finally:
-            run(f"git -C {REPO} checkout -- .")
-        print(rows[-1], flush=True)
-    with open(os.path.join(HERE, "seeded", f"RESULTS_{tier}.md"), "w") as fh:
+    with ThreadPoolExecutor(jobs) as ex:
+        for row in ex.map(lambda d: one(d, tier, in_repo), dirs):
+            rows.append(row)
+            print(row, flush=True)
+    out = os.path.join(HERE, "seeded", f"RESULTS_{tier}.md")
+    old = {}
+    if names and os.path.exists(out):  # partial run: merge into the table
+        for l in open(out).read().splitlines()[2:]:
+            c = [x.strip() for x in l.strip("|").split(" | ")]
+            old[c[0]] = tuple(c)
+    for r in rows:
+        old[r[0]] = r
+    with open(out, "w") as fh:
         fh.write(f"| seeded change | property | {tier} verdict | details | s |\n|---|---|---|---|---|\n")
-        for r in rows:
-            fh.write("| " + " | ".join(str(x) for x in r) + " |\n")
+        for k in sorted(old):
+            fh.write("| " + " | ".join(str(x) for x in old[k]) + " |\n")
     print(f"{sum(1 for r in rows if r[2] == 'CAUGHT')}/{len(rows)} caught")
 
 
